@@ -352,6 +352,9 @@ class CallMixin:
                 if isinstance(a, PyC) and isinstance(a.obj, str) and lookup(key, a.obj) is not None and lookup(key, a.obj).inst == a.obj:
                     c = lookup(key, a.obj)
                     break
+                if isinstance(a, PyC) and isinstance(a.obj, type) and lookup(key, a.obj.__name__) is not None and lookup(key, a.obj.__name__).inst == a.obj.__name__:
+                    c = lookup(key, a.obj.__name__)        # instantiation per class-object argument (kinds "class:K")
+                    break
         if c is None:
             if key in self.inline_keys or (key.endswith(".__init__") and key.startswith("statham.")):
                 fi = find_function(key)
@@ -555,6 +558,8 @@ class CallMixin:
         if c.ghost.get("result_fresh"):
             res.fresh = TRUE
         sp = SpecEval(self, {**env, "result": res}, old_env=old_env, glob=find_function(c.key).glob, old_state=pre_state)
+        if c.ghost.get("result_fresh_unless"):
+            res.fresh = Not(sp.compile_bool(c.ghost["result_fresh_unless"]))
         post = sp.compile_bool(c.returns)
         st.assume(post, fact=True)
         if rcls is not None:
